@@ -895,6 +895,22 @@ func stopVsGoneClient(res *run.Result, s *lcServer, ctl *sched.Ctl, g c15gated, 
 			close(release)
 		}
 	}()
+	// three healthy, idle clients besides the ones that will be gone: Stop has to close them whatever
+	// happens when it closes the others
+	var healthy []*tcpClient
+	for i := 0; i < 3; i++ {
+		c, err := s.dial(s.plain == 0 || (s.tls != 0 && i == 1))
+		if err != nil {
+			res.Inconclusive = "client could not connect"
+			return
+		}
+		defer c.c.Close()
+		if _, err := c.do("PING"); err != nil {
+			res.Inconclusive = "PING failed"
+			return
+		}
+		healthy = append(healthy, c)
+	}
 	var gone []*tcpClient
 	for _, t := range s.ports() {
 		c, err := s.dial(t)
@@ -974,6 +990,12 @@ func stopVsGoneClient(res *run.Result, s *lcServer, ctl *sched.Ctl, g c15gated, 
 	if !released {
 		close(release)
 		released = true
+	}
+	for _, c := range healthy {
+		if !clientClosed(c) {
+			res.Violate(sig+":healthy-client-open", "after Stop returns every client connection has been closed", "an idle client was still connected 3 s after Stop returned (other connections of the server had been reset by their peers before Stop)"+map[bool]string{true: "; Stop returned " + fmt.Sprint(stopErr), false: ""}[stopErr != nil], desc)
+			return
+		}
 	}
 	afterStopReturned(res, s, sig, stopErr, desc)
 }
